@@ -216,7 +216,7 @@ class Export:
         edge = [(self.nidx[id(par)], [self.O(o) for o in objs if o.key != "nets"]) for par, objs in n.setup_nodes.items()]
         scopes = p.get("pool_scope", "").split()
         # the back-off period as the code computes it (harness glue: Python's round on a binary float)
-        budget = int(p.get("test_timeout", 3600)) * int(p.get("max_tries", 1))
+        budget = int(p.get("test_timeout", 3600)) * max(int(p.get("max_tries", 1)), 1)      # at least one try (fix: in /repo)
         dt = round(max(budget / 1000, 0.1), 2)
         return (f"(mkNode {cbool(flat)} {cbool(n.is_shared_root())} {cbool(n.is_object_root())} {cbool(len(n.cloned_nodes) > 0)} "
                 f"{cbool(p.get('dry_run', 'no') == 'yes')} {clist([cnat(x) for x in owners])} "
